@@ -1,6 +1,7 @@
 '''Sitemap scraper'''
 import gettext
 import logging
+import zlib
 
 import wpull.util
 from wpull.backport.logging import StyleAdapter
@@ -37,7 +38,10 @@ class SitemapScraper(SitemapReader, BaseExtractiveScraper):
                 for link in link_iter:
                     link_contexts.add(LinkContext(link, linked=True))
 
-        except (UnicodeError, self._html_parser.parser_error) as error:
+        except (UnicodeError, self._html_parser.parser_error,
+                EOFError, OSError, zlib.error) as error:
+            # EOFError, OSError (BadGzipFile), zlib.error: a truncated or
+            # corrupt gzip compressed sitemap or robots.txt
             _logger.warning(
                 _('Failed to read document at ‘{url}’: {error}'),
                 url=request.url_info.url, error=error
